@@ -50,19 +50,22 @@ VALID = {
     "array_concat": [["${arr}", "${arr2}"], ["${emp}"], ["${arr}"], [], ["${arreq}", "${arr}"], ["${arr}", "nope"], ["${arr}", "${m}"], ["${arr}", "${rel}"], ["${arr}", "${s}"], ["${s}"], ["${s}", "${arr}"]],
     "array_contains": [["${arr}", "b"], ["${arr}", "zz"], ["${arr}", "\"c d\""], ["${emp}", "x"],
                        # an element that is exactly `=` and a searched value that names a command: data, never re-parsed
-                       ["${arreq}", "pwd"], ["${arreq}", "os_name"], ["${arreq}", "y"], ["${arreq}", "array"]],
-    "array_is_empty": [["${arr}"], ["${emp}"]],
+                       ["${arreq}", "pwd"], ["${arreq}", "os_name"], ["${arreq}", "y"], ["${arreq}", "array"],
+                       # the handle of another kind of collection whose content matches the searched value (seed C19-w6-m1: a for-in
+                       # over a set walked a snapshot array that stayed in the handle table when array_contains left the loop early)
+                       ["${s}", "x"], ["${s}", "y"], ["${s}", "zz"], ["${eset}", "x"], ["${m}", "k"], ["${m}", "v"], ["${rel}", "q"]],
+    "array_is_empty": [["${arr}"], ["${emp}"], ["${s}"], ["${eset}"], ["${m}"]],
     "array_join": [["${arr}", ","], ["${arr}", "\"\""], ["${emp}", ","], ["${arr2}", "-"], ["${arreq}", ","],
                    # the handle of another kind of collection, and a separator that the script's own condition cannot re-parse
                    # (a double quote together with a space): every path out of the script, the failing ones too, releases what
                    # the script allocated (seed C19-w5-m1: a temporary array leaked on the error path, for a set argument)
                    ["${s}", ","], ["${s}", "\"\\\", \\\"\""], ["${arr}", "\"\\\", \\\"\""], ["${m}", ","], ["${s}", "\"a b\""],
                    ["${eset}", ","], ["${s}", "\"q\\\" \""]],
-    "map_contains_value": [["${m}", "v"], ["${m}", "zz"], ["${m}", "\"v 2\""], ["${emap}", "v"]],
-    "map_contains_key": [["${m}", "k"], ["${m}", "zz"], ["${emap}", "k"]],
-    "map_is_empty": [["${m}"], ["${emap}"]],
+    "map_contains_value": [["${m}", "v"], ["${m}", "zz"], ["${m}", "\"v 2\""], ["${emap}", "v"], ["${s}", "x"], ["${arr}", "b"]],
+    "map_contains_key": [["${m}", "k"], ["${m}", "zz"], ["${emap}", "k"], ["${s}", "x"], ["${arr}", "b"]],
+    "map_is_empty": [["${m}"], ["${emap}"], ["${s}"], ["${arr}"]],
     "set_from_array": [["${arr}"], ["${emp}"], ["${arreq}"], ["${s}"], ["${m}"]],
-    "set_is_empty": [["${s}"], ["${eset}"]],
+    "set_is_empty": [["${s}"], ["${eset}"], ["${arr}"], ["${m}"]],
     "is_windows": [[]],
     "print_env": [[]], "printenv": [[]],
     "uname": [[], ["-a"]],
